@@ -383,7 +383,7 @@ func checkC01(c *hx.Checker) {
 		"Templates: Add/Sub/Mul (all ordered pairs for Sub), Relu, Transpose, Softmax{axis=-1}, Softmax{axis=0}, MatMul, Gemm{transB}, Gemm{transA,alpha=.5,beta=2} (C wired / omitted / empty), Concat+Slice, Reshape, Squeeze, Constant, RNN/GRU/LSTM with default and with explicit non-default activations (initial_h omitted / empty / wired; 5 output naming schemes: arbitrary, spec names, permuted spec names, trailing output omitted, skipped output with empty name). " +
 		"BFS: all programs of depth <= 2 over the full alphabet; depth 3 over the reduced alphabet {Sub, Relu, Transpose, Gemm2, GRU} as chains (each node consumes its predecessor's result)" +
 		map[bool]string{true: " and, thorough, unrestricted depth 3 over the reduced alphabet plus ALL depth-3 programs over the full alphabet (streamed simplest-first under a 25-minute budget; the evidence says whether it completed)", false: ""}[thorough] +
-		"; 2 input value sets; every depth<=1 program also with w1 declared as graph input (not supplied / supplied with another value), with the graph inputs declared with symbolic dims / without shape, and with the initializer w1 and the graph input a declared as graph outputs (passthrough); with value_info entries for every intermediate value, and with one output name more than the last node's operator returns (declared as graph output: Run must fail), with the last graph output declared twice, and with the caller's map carrying other tensors under the names of the intermediate values (computed correctly or refused); scalar (rank-0) graph inputs with and without an initializer default; one 5-node program under 7 value-naming schemes (prefixes of each other, case-only differences, odd characters, numeric-looking, very long, keyword-like) x 4 orders of the input / initializer / output lists; a chain of 600 nodes; 31 pairs of twin nodes (same operator, same inputs; one differing attribute of each kind, or spelled out vs left to the default) in 3 orders. Every program is marshalled, loaded with NewModelFromBytes and Run with EVERY intermediate value declared as graph output, and compared value by value with the reference evaluation of the same graph. " +
+		"; 2 input value sets; every depth<=1 program also with w1 declared as graph input (not supplied / supplied with another value), with the graph inputs declared with symbolic dims / without shape, and with the initializer w1 and the graph input a declared as graph outputs (passthrough); with value_info entries for every intermediate value, and with one output name more than the last node's operator returns (declared as graph output: Run must fail), with the last graph output declared twice, and with the caller's map carrying other tensors under the names of the intermediate values (computed correctly or refused); scalar (rank-0) graph inputs with and without an initializer default; one 5-node program under 7 value-naming schemes (prefixes of each other, case-only differences, odd characters, numeric-looking, very long, keyword-like) x 4 orders of the input / initializer / output lists; a chain of 600 nodes; 4 graphs with a node whose operator fails while computing (error, never a nil output); 31 pairs of twin nodes (same operator, same inputs; one differing attribute of each kind, or spelled out vs left to the default) in 3 orders. Every program is marshalled, loaded with NewModelFromBytes and Run with EVERY intermediate value declared as graph output, and compared value by value with the reference evaluation of the same graph. " +
 		"states = program prefixes, transitions = appended node instances; non-trivial = programs with >= 1 node"
 	c.Assumptions = []string{"reference evaluator: ref interpreter applied node by node to a name->tensor environment (refeval.go)", "tolerance 1e-4 (abs+rel) on float32 values of magnitude <= ~10",
 		"a node listing fewer output names than the operator returns may be refused (positional binding with length check) but must never yield nil / missing outputs"}
@@ -673,6 +673,71 @@ func checkC01(c *hx.Checker) {
 				id := fmt.Sprintf("twin-nodes/%d:%s/%s/%s", ti, tw.op, tw.define, order)
 				c.Case(hx.CaseInfo{ID: id, Tags: []string{"twin-nodes", "op=" + tw.op, "attr-kind=" + tw.define}, NonTrivial: true}, func() *hx.Violation { return mc.run() })
 			}
+		}
+	}
+	// nodes whose operator fails while computing (integer division by zero, inner dimensions that do not match, a
+	// reshape target that does not fit): Run reports an error, or - where the outcome is undefined - returns every
+	// declared output non-nil; never "success" with a nil tensor
+	{
+		type fk struct {
+			name  string
+			nodes []*onnx.NodeProto
+			ins   map[string]*ref.T
+			inits []*onnx.TensorProto
+			outs  []string
+			must  bool // must fail (else: error or all outputs non-nil)
+		}
+		i32 := func(v ...int64) *ref.T {
+			t := ref.New(ref.I32, len(v))
+			for i, x := range v {
+				t.V[i] = ref.EncI(ref.I32, x)
+			}
+			return t
+		}
+		cases := []fk{
+			{"int-div-by-zero", []*onnx.NodeProto{hx.Node("Div", []string{"p", "q"}, []string{"y"}, nil), hx.Node("Relu", []string{"f"}, []string{"z"}, nil)}, map[string]*ref.T{"p": i32(7, 0, -3), "q": i32(0, 0, 0), "f": recFill(ref.F32, []int{2}, 3)}, nil, []string{"y", "z"}, false},
+			{"matmul-inner-mismatch", []*onnx.NodeProto{hx.Node("Relu", []string{"f"}, []string{"z"}, nil), hx.Node("MatMul", []string{"m", "w"}, []string{"y"}, nil)}, map[string]*ref.T{"m": recFill(ref.F32, []int{2, 3}, 1), "f": recFill(ref.F32, []int{2}, 3)}, []*onnx.TensorProto{hx.TensorProto("w", recFill(ref.F32, []int{2, 2}, 2), "raw")}, []string{"z", "y"}, true},
+			{"reshape-does-not-fit", []*onnx.NodeProto{hx.Node("Reshape", []string{"m", "s"}, []string{"y"}, nil)}, map[string]*ref.T{"m": recFill(ref.F32, []int{2, 3}, 1)}, []*onnx.TensorProto{hx.TensorProto("s", ref.I64Vec(4, 2), "raw")}, []string{"y"}, true},
+			{"add-not-broadcastable", []*onnx.NodeProto{hx.Node("Add", []string{"m", "w"}, []string{"y"}, nil), hx.Node("Relu", []string{"y"}, []string{"z"}, nil)}, map[string]*ref.T{"m": recFill(ref.F32, []int{2, 3}, 1)}, []*onnx.TensorProto{hx.TensorProto("w", recFill(ref.F32, []int{2, 2}, 2), "raw")}, []string{"y", "z"}, true},
+		}
+		for _, k := range cases {
+			k := k
+			g := &onnx.GraphProto{Name: "g", Node: k.nodes, Initializer: k.inits}
+			var inNames []string
+			for n := range k.ins {
+				inNames = append(inNames, n)
+			}
+			sort.Strings(inNames)
+			for _, n := range inNames {
+				g.Input = append(g.Input, hx.ValueInfo(n, k.ins[n].DT, hx.SymbolicDims(len(k.ins[n].Shape), n+"_d")))
+			}
+			for _, o := range k.outs {
+				g.Output = append(g.Output, hx.ValueInfoNoShape(o))
+			}
+			mb := hx.Marshal(hx.Model(g, 13))
+			c.Case(hx.CaseInfo{ID: "failing-kernel/" + k.name, Tags: []string{"failing-kernel"}, NonTrivial: true}, func() *hx.Violation {
+				mc := newModelCase(mb, k.ins, "error", nil, hx.Bits, "failing kernel: "+k.name)
+				res := hx.RunModelBytes(mb, k.ins, k.outs)
+				mk := func(kind, d string) *hx.Violation { return &hx.Violation{Kind: kind, Detail: d, Replay: mc} }
+				switch {
+				case res.Panic != "":
+					return mk("panic", res.Panic)
+				case res.Err != nil && res.ReadErr != "":
+					return mk("outputs-with-error", res.ReadErr)
+				case res.Err != nil:
+					return hx.OK("refused/error")
+				case k.must:
+					return mk("not-refused", "a node whose operator cannot compute this request did not make Run fail")
+				case res.ReadErr != "":
+					return mk("nil-output", res.ReadErr)
+				}
+				for i, o := range res.Outs {
+					if o == nil {
+						return mk("nil-output", fmt.Sprintf("Run reported success but declared output %q is nil", k.outs[i]))
+					}
+				}
+				return hx.OK("undefined-but-present")
+			})
 		}
 	}
 	// scalar (rank-0) graph inputs: declared with an empty shape or without shape, with / without an initializer
